@@ -12,7 +12,8 @@ from rv.gen import geoms
 
 TASKS = ["clip_classification", "clip_multilabel_classification", "sound_event_classification", "sound_event_detection"]
 NS = uuid.UUID(int=0x5EED)
-LABELS = ["species", "call_type"]
+# "x@ns" names a term of its own (name "ns:x") whose *label* is "x": two different terms may share a label
+LABELS = ["species", "call_type", "genus@dwc", "genus@fieldguide"]
 VALS = ["a", "b", "c", "d", "e", "f", "g"]
 EPS = 1e-9
 
@@ -90,6 +91,10 @@ def random_case(rng, task, n_vocab=None, n_clips=None):
                 box = geoms.random_box(rng, "dyadic")
                 clip["events"].append({"kind": "both_same_event", "geom": geoms.geom_in_box(rng, rng.choice(["BoundingBox", "TimeInterval", "Point"]), *box),
                                        "ann_tags": _true_tags(rng, vocab, pool), "pred_tags": _pred_tags(rng, vocab, pool), "pred_score": rng.choice([0.25, 0.5, 1.0])})
+                if rng.random() < 0.25:
+                    # the model run carries its own SoundEvent object for the same event (same uuid): features were
+                    # attached to it, or it was re-loaded with other recording metadata
+                    clip["events"][-1]["pred_event_copy"] = rng.choice(["features", "relocated"])
         else:
             # detection: annotated and predicted events with overlapping / disjoint / geometry-less placement
             na, npred = rng.choice([0, 1, 2, 3, 5]), rng.choice([0, 1, 2, 3, 5])
@@ -156,12 +161,21 @@ def _u(*parts):
     return uuid.uuid5(NS, ":".join(str(p) for p in parts))
 
 
+def term_of(label_id):
+    from soundevent import data
+
+    if "@" in label_id:
+        label, ns = label_id.split("@")
+        return data.Term(name=f"{ns}:{label}", label=label, definition=f"{label} as understood by {ns}", uri=f"http://example.org/{ns}/{label}")
+    return data.term_from_key(label_id)
+
+
 def build(spec, order=None):
     """-> (clip_predictions, clip_annotations, tags, index) with deterministic uuids."""
     from soundevent import data
 
     def tag(t):
-        return data.Tag(term=data.term_from_key(t[0]), value=t[1])
+        return data.Tag(term=term_of(t[0]), value=t[1])
 
     rec = data.Recording(uuid=_u("rec"), path="/a/r.wav", duration=10000.0, channels=1, samplerate=44100)
     cps, cas = [], []
@@ -186,6 +200,10 @@ def build(spec, order=None):
             if e["kind"] in ("pred", "both_same_event"):
                 se = data.SoundEvent(uuid=(_u("se_shared", e["shared"]) if e.get("shared") is not None else _u("se", ci, ei)) if e["kind"] == "both_same_event" else _u("sep", ci, ei),
                                      geometry=g, recording=rec)
+                if e.get("pred_event_copy") == "features":
+                    se = se.model_copy(update={"features": [data.Feature(term=data.term_from_key("duration"), value=0.5)]})
+                elif e.get("pred_event_copy") == "relocated":
+                    se = se.model_copy(update={"recording": rec.model_copy(update={"path": Path("/elsewhere") / "r.wav"})})
                 p = data.SoundEventPrediction(uuid=_u("sepred", ci, ei), sound_event=se, score=e.get("pred_score", 1.0),
                                               tags=[data.PredictedTag(tag=tag(t), score=t[2]) for t in e["pred_tags"]])
                 preds.append(p)
